@@ -14,6 +14,11 @@ CHECKS = {
     text="Real command-line runs in fresh interpreters for every corpus configuration and generated libraries are repeated under PYTHONHASHSEED 1/4242/random, two hostile environments, another current directory with identical absolute paths and a pre-populated output directory; sequences of up to 4 libraries are run through the real entry point in one interpreter and the last library's output is compared with a run alone. Held = every pair byte-identical and no impure API called from repository code.",
     note="Trusted: Python 3.12, byte comparison. Not covered: other Python versions; histories longer than 4; file systems that reorder directory listings (the monitor shows Shroud lists no directory).",
     design="DESIGN.md §2 C07"),
+ "C15": dict(
+    technique="audit-hook file monitor (emitter on the stack when a path is opened for writing) + directory snapshots; relation checks between runs differing only in wrap_python / wrap_lua",
+    text="Real Shroud runs over corpus descriptions under all 12 library-level wrap_c/fortran/python/lua combinations (fortran=>c), generated libraries with random per-declaration overrides, and random assignments of the five directory options; every open-for-write is attributed to its emitter and compared with the wrap flags, the --cfiles/--ffiles contents and the designated directory; C/Fortran files are compared byte for byte across python/lua toggles.",
+    note="Trusted: sys.addaudithook sees every file Python opens (cross-checked against the directory snapshot). By design bind(C) interfaces of C wrappers (c_*) and setup.py in --outdir are not counted as misplaced (DESIGN C15).",
+    design="DESIGN.md §2 C15"),
 }
 
 NOT_APPLICABLE = []
